@@ -679,6 +679,32 @@ def stage_C08(run):
     return alarms, [], "", {"extension_operand_programs": line}
 
 
+def stage_C19(run):
+    """Extension instructions that can be EQUAL (C19: "appear at that position in the block's stack
+    and in every ancestor's stack"): the correspondence check's extension pushes an instruction that
+    carries its fresh register, so no two are equal.  The harness's `exttag` mode analyses 18 fixed
+    programs with a third extension whose instruction carries only a tag — two leaves back to back
+    (operands of one operator, neighbouring arguments, sides of a comparison) at block depth 0, 1, 2
+    with different and with equal tags — and checks every block's stack directly
+    (harness/src/exttag.rs)."""
+    from verif import HARNESS
+    out_json = os.path.join(run.dir, "exttag.json")
+    if os.path.exists(out_json):
+        line = json.load(open(out_json))["line"]
+    else:
+        try:
+            p = subprocess.run([HARNESS, "exttag"], stdout=subprocess.PIPE, stderr=subprocess.STDOUT, text=True, timeout=120)
+            line = (p.stdout.strip().splitlines() or ["(exttag fail \"no output\")"])[-1]
+        except Exception as e:  # noqa: BLE001
+            line = "(exttag fail \"%s\")" % str(e)[:100]
+        json.dump({"line": line}, open(out_json, "w"))
+    alarms = []
+    if not line.startswith("(exttag ok"):
+        alarms.append((0, "C19: an instruction pushed by an extension is missing from (or misplaced in) a block's or an ancestor's "
+                          "stack (fixed programs of harness/src/exttag.rs, not the program below): " + line[:300]))
+    return alarms, [], "", {"equal_extension_instruction_programs": line}
+
+
 PENDING["C08"] = dict(
     stage=stage_C08,
     title="Every register that is read has been written earlier in the same function",
@@ -835,6 +861,7 @@ PENDING["C06"] = dict(
     assumptions=["compared modulo bracketing (C07); F7 through the operand rule"],
 )
 PENDING["C19"] = dict(
+    stage=stage_C19,
     title="Extension expressions are opaque leaves evaluated once, in place",
     projection="stacks",
     monitors=[("C19", "wf")],
